@@ -98,8 +98,11 @@ func (l *levelDownCache) Load(directory string, dbAddress address.Address) (ds d
 		return
 	}
 
-	l.caches[keyPath] = &wrappedCache{wrappedCache: ds, id: keyPath, manager: l}
-	return
+	// hand out the registered wrapper, as every later Load does: closing the bare datastore
+	// would leave a closed cache registered, which the next Load of the database returns
+	wc := &wrappedCache{wrappedCache: ds, id: keyPath, manager: l}
+	l.caches[keyPath] = wc
+	return wc, nil
 }
 
 func (l *levelDownCache) Close() error {
